@@ -11,7 +11,8 @@ rows of those files, decide:
            for short read-only traces additionally the true optimum by exhaustive search over
            replacement decisions
   both     one fill per distinct line <= fills <= one per read access; monotone in capacity (cache);
-           traffic invariant under moving positions inside their line
+           traffic invariant under moving positions inside their line and under the order in which
+           the bindings of one call are listed (bindings of different element widths included)
   filterTrace      = rows of the input whose point occurs (as a prefix) in the filter
   _combineTraces   = stable merge by iteration stamp (read first on ties)
   directory listing before/after every model call (temporary files removed)
@@ -37,8 +38,14 @@ SPEC = {
              "payload / elem bindings, tensors spanning any subset of the loop ranks, renamed loop ranks), each "
              "run under the buffet for every legal evict-on and under the cache for capacities 0..unbounded, plus "
              "a re-run with positions moved inside their lines; (iii) random multi-binding runs (2-3 bindings, "
-             "1-2 tensors); (iv) real traces recorded by Metrics from Z_MN = A_MK * B_KN (Gustavson), incl. "
-             "populate read/write traces with insertion shifts; (v) filterTrace and _combineTraces on random and "
+             "1-2 tensors, bindings on the same or on different loop ranks, one element width for all bindings or "
+             "one of 8/16/32/64 bits per binding, i.e. several elements-per-line values in one call), each run with "
+             "the bindings (and the trace dictionary) listed in every order: every listing is judged by the same "
+             "reference models and must charge what the first listing did (buffet always; cache when the bindings "
+             "sit on different loop ranks), part of them re-run with positions moved inside their lines; (iv) real "
+             "traces recorded by Metrics from Z_MN = A_MK * B_KN (Gustavson), incl. "
+             "populate read/write traces with insertion shifts, multi-binding runs with per-binding element widths and "
+             "one re-listing of the bindings; (v) filterTrace and _combineTraces on random and "
              "real traces.  Non-trivial = some line is touched at least twice (model cases) / the filter keeps "
              "and drops at least one row / both merged files hold rows; distinct = distinct case description."),
     "shards": {"quick": 16, "thorough": 16},
@@ -47,10 +54,14 @@ SPEC = {
     "min_counts": {"quick": {"evaluations": 8000, "oracle_evals": 300000, "model_calls": 40000, "buffet_calls": 15000,
                              "cache_calls": 20000, "fnu_checked": 15000, "optimum_checked": 5000,
                              "listing_checked": 40000, "filter_calls": 600, "combine_calls": 300, "kernel_cases": 150,
-                             "lineperm_checked": 1200, "multi_binding_calls": 6000, "staging_writes_seen": 4000},
+                             "lineperm_checked": 1200, "multi_binding_calls": 6000, "staging_writes_seen": 4000,
+                             "relisted_runs": 1000, "listing_order_checked": 2500, "mixed_width_cases": 300,
+                             "mixed_width_out_of_loop_order_runs": 300},
                    "thorough": {"evaluations": 100000, "oracle_evals": 4000000, "model_calls": 400000,
                                 "fnu_checked": 200000, "optimum_checked": 50000, "kernel_cases": 2000,
-                                "filter_calls": 8000, "combine_calls": 4000}},
+                                "filter_calls": 8000, "combine_calls": 4000, "relisted_runs": 10000,
+                                "listing_order_checked": 25000, "mixed_width_cases": 3000,
+                                "mixed_width_out_of_loop_order_runs": 3000}},
     "assumptions": [
         "well-formed trace file = header + rows whose iteration stamps strictly increase inside the file; a read "
         "row and a write row (different files) may share a stamp, the read is first",
@@ -71,6 +82,12 @@ SPEC = {
         "violation keys carry the input class of the run (multi-binding; write-traced bindings whose rank extents "
         "differ; read and write rows of different lines on one stamp; staging lines beside another "
         "binding) so that one mechanism maps to one key; the class never excuses a violation",
+        "the bindings of one call are a set and the trace files a mapping: the order of listing either is not an "
+        "input of the statement.  Buffet traffic is a sum over bindings, so it must be the same for every listing; "
+        "the cache processes accesses in stamp order and breaks stamp ties between bindings of ONE loop rank by "
+        "listing order, so equality across listings is demanded only when the bindings sit on different loop ranks",
+        "every binding has its own elements-per-line = line size // its element width (the statement's "
+        "`line-granular positions` are per binding); the line size is at least the widest element",
         "overflow counts are not part of the statement; only `unbounded capacity -> 0 overflows` is looked at",
     ],
 }
@@ -293,8 +310,12 @@ def _rand_multi(rng):
     n = rng.randint(2, 3)
     order = RANKS[:n]
     nb = rng.randint(2, 3)
-    bits = rng.choice([16, 32])
-    epl, line_sz = _pick_line(rng, bits)
+    # element widths: one for all bindings, or one per binding (several elements-per-line values in one call)
+    if rng.random() < 0.35:
+        widths = [rng.choice([16, 32])] * nb
+    else:
+        widths = [rng.choice([8, 16, 32, 64]) for _ in range(nb)]
+    _, line_sz = _pick_line(rng, max(widths))
     tensors, bindings, used = {}, [], set()
     names = ["A", "B"] if rng.random() < 0.6 else ["A"]
     distinct_ranks = rng.random() < 0.6
@@ -310,6 +331,8 @@ def _rand_multi(rng):
         else:
             continue
         used.add((t, j, ty))
+        bits = widths[b]
+        epl = line_sz // bits
         nlines = rng.randint(1, 4)
         mode = rng.choice(["r", "r", "rw", "w"])
         shape = rng.choice([0, 0, 8, 96]) + epl * nlines
@@ -333,9 +356,14 @@ def _rand_multi(rng):
     evicts = []
     for _ in range(2):
         evicts.append([rng.choice(["root"] + order[:order.index(b["rank"])]) for b in bindings])
+    # the bindings are a set: every order of listing them (the first one is the order of generation, which is
+    # itself unrelated to the loop order)
+    listings = [list(p) for p in itertools.permutations(range(len(bindings)))]
+    several_epl = len({line_sz // b["bits"] for b in bindings}) > 1
     return {"kind": "model", "order": order[:deepest + 1], "tensors": tensors, "bindings": bindings, "line_sz": line_sz,
             "buffet": {"evict": evicts, "caps": [rng.choice([0, 2]), None]},
-            "cache": {"caps": [0, 1, 2, 4, None]}, "perm": None, "rename": None}
+            "cache": {"caps": [0, 1, 2, 4, None]}, "listings": listings,
+            "perm": rng.randrange(1 << 30) if several_epl and rng.random() < 0.3 else None, "rename": None}
 
 
 def _inc_points(rng, n, count, vals):
@@ -382,9 +410,11 @@ def _rand_kernel(rng):
     a = [[(rng.randint(1, 3) if rng.random() < da else 0) for _ in range(k)] for _ in range(m)]
     b = [[(rng.randint(1, 3) if rng.random() < db else 0) for _ in range(n)] for _ in range(k)]
     bits = rng.choice([16, 32])
-    epl, line_sz = _pick_line(rng, bits)
-    return {"kind": "kernel", "A": a, "B": b, "bits": bits, "line_sz": line_sz,
-            "caps": [0, 1, 2, 3, 5, None]}
+    # element widths of the 1st / 2nd / 3rd binding of a multi-binding run (single-binding runs use the first)
+    widths = [bits] * 3 if rng.random() < 0.4 else [bits] + [rng.choice([8, 16, 32, 64]) for _ in range(2)]
+    epl, line_sz = _pick_line(rng, max(widths))
+    return {"kind": "kernel", "A": a, "B": b, "bits": bits, "widths": widths, "line_sz": line_sz,
+            "caps": [0, 1, 2, 3, 5, None], "relist": rng.randrange(1, 6)}
 
 
 # ------------------------------------------------------------------------------------------
@@ -591,7 +621,7 @@ def _prepare(case, tmp, files=None):
     rename = case.get("rename")
     inv = {v: k for k, v in (rename or {}).items()}
     formats = _build_formats(case)
-    ctx = {"formats": formats, "traces": {}, "bind": [], "keep": set()}
+    ctx = {"formats": formats, "traces": {}, "owner": {}, "bind": [], "keep": set()}
     for i, b in enumerate(case["bindings"]):
         orig_rank = inv.get(b["rank"], b["rank"])
         n = b["n"]
@@ -605,6 +635,7 @@ def _prepare(case, tmp, files=None):
                 path = os.path.join(tmp, f"t{i}-{b['rank']}-{acc_name}.csv")
                 _write_trace(path, order[:n], rows)
             ctx["traces"][(b["tensor"], orig_rank, b["type"], acc_name)] = path
+            ctx["owner"][(b["tensor"], orig_rank, b["type"], acc_name)] = i
             ctx["keep"].add(os.path.basename(path))
         ctx["bind"].append({"tensor": b["tensor"], "rank": orig_rank, "type": b["type"]})
     ctx["keep"] |= set(_listing(tmp))
@@ -667,7 +698,7 @@ def _expected_dict(case, per_binding, line_sz):
     return exp
 
 
-def _features(case, facts):
+def _features(case, facts, listing=None):
     multi = len(case["bindings"]) > 1
     staging = any(a[4] for f in facts for a in f["acc"])
     shift = False
@@ -681,7 +712,8 @@ def _features(case, facts):
     # the binding listed last among those of the innermost bound rank, and whether a write-traced binding's own
     # extent differs from that binding's (used only to *name* the violation class, never to excuse one)
     order = case["order"]
-    last = max(range(len(ranks)), key=lambda i: (order.index(ranks[i]), i))
+    place = {i: k for k, i in enumerate(listing)} if listing else {i: i for i in range(len(ranks))}
+    last = max(range(len(ranks)), key=lambda i: (order.index(ranks[i]), place[i]))
     ext = []
     for b in case["bindings"]:
         t = case["tensors"][b["tensor"]]
@@ -695,135 +727,180 @@ def _run_model_case(case, mon, tmp, files=None, tagx=""):
     order = case["order"]
     ctx = _prepare(case, tmp, files)
     facts = _binding_facts(case)
-    multi, staging, shift, same_rank, foreign = _features(case, facts)
+    nb = len(case["bindings"])
+    multi = nb > 1
     tag = tagx + (":multi-binding" if multi else "")
-
-    ftag = ":bindings-with-different-extents" if foreign else ""
-
-    def keyfn(which, kind, failure, extra=""):
-        """violation class = operation + clause + failure kind (+ input class)"""
-        if kind == "writebacks" and foreign:
-            return f"{which}:writebacks{ftag}{tag}"
-        return f"{which}:{kind}:{failure}{tag}{extra}"
     mon.count("staging_writes_seen", sum(1 for f in facts for a in f["acc"] if a[4] and a[1]))
     reuse = any(len({a[2] for a in f["acc"]}) < len(f["acc"]) for f in facts)
     results = []
     total_acc = sum(len(f["acc"]) for f in facts)
     inf_bits = (total_acc + 1) * line_sz
+    several_epl = len({f["epl"] for f in facts}) > 1
+    if multi and several_epl:
+        mon.count("mixed_width_cases")
 
     def loop_ranks():
         return dict(case["rename"]) if case.get("rename") else None
 
-    # ---------------------------------------------------------------- buffet
-    if case.get("buffet"):
-        for evict in case["buffet"]["evict"]:
-            bindings = [dict(b, **{"evict-on": e}) for b, e in zip(ctx["bind"], evict)]
-            per = []
-            for b, f, e in zip(case["bindings"], facts, evict):
-                end = 0 if e == "root" else order.index(e) + 1
-                per.append(_buffet_model(f["acc"], end))
-            exp = _expected_dict(case, per, line_sz)
-            for cap in case["buffet"]["caps"]:
+    # The bindings form a set: the run is repeated with the bindings (and the trace dictionary) listed in every
+    # order the case asks for.  Each listing is judged by the same oracles, and must charge what the first did.
+    listings = case.get("listings") or [list(range(nb))]
+    first_run = {}
+    for lno, listing in enumerate(listings):
+        _, staging, shift, same_rank, foreign = _features(case, facts, listing)
+        ftag = ":bindings-with-different-extents" if foreign else ""
+
+        def keyfn(which, kind, failure, extra=""):
+            """violation class = operation + clause + failure kind (+ input class)"""
+            if kind == "writebacks" and foreign:
+                return f"{which}:writebacks{ftag}{tag}"
+            return f"{which}:{kind}:{failure}{tag}{extra}"
+
+        place = {i: k for k, i in enumerate(listing)}
+        traces = {k: v for k, v in sorted(ctx["traces"].items(), key=lambda kv: place[ctx["owner"][kv[0]]])}
+        out_of_loop_order = any(order.index(case["bindings"][x]["rank"]) > order.index(case["bindings"][y]["rank"])
+                                for x, y in zip(listing, listing[1:]))
+        if lno:
+            mon.count("relisted_runs")
+        if several_epl and out_of_loop_order:
+            mon.count("mixed_width_out_of_loop_order_runs")
+        full = lno == 0
+
+        # ------------------------------------------------------------ buffet
+        if case.get("buffet"):
+            for evict in case["buffet"]["evict"]:
+                bindings = [dict(ctx["bind"][i], **{"evict-on": evict[i]}) for i in listing]
+                per = []
+                for b, f, e in zip(case["bindings"], facts, evict):
+                    end = 0 if e == "root" else order.index(e) + 1
+                    per.append(_buffet_model(f["acc"], end))
+                exp = _expected_dict(case, per, line_sz)
+                # buffet traffic does not depend on the capacity: later listings are run at one capacity
+                for cap in (case["buffet"]["caps"] if full else case["buffet"]["caps"][-1:]):
+                    cap_bits = inf_bits if cap is None else cap * line_sz
+                    ok, res = _call(mon, "buffetTraffic",
+                                    lambda: Traffic.buffetTraffic(bindings, ctx["formats"], dict(traces), cap_bits,
+                                                                  line_sz, loop_ranks=loop_ranks()), tmp, ctx["keep"])
+                    mon.count("model_calls")
+                    mon.count("buffet_calls")
+                    if multi:
+                        mon.count("multi_binding_calls")
+                    if not ok:
+                        mon.violation(f"buffetTraffic:raised:{type(res).__name__}{ftag}{tag}",
+                                      f"buffetTraffic raised {type(res).__name__}: {res} (evict-on {evict}, capacity {cap}, "
+                                      f"bindings listed {listing})")
+                        continue
+                    got, overflows = res
+                    if full:
+                        results.append(("buffet", evict, cap, got))
+                        first_run[("buffet", tuple(evict), cap)] = got
+                    _bounds(mon, "buffetTraffic", keyfn, case, facts, got, line_sz)
+                    for t in sorted(set(exp) | set(got)):
+                        for access in ("read", "write"):
+                            g, x = got.get(t, {}).get(access), exp.get(t, {}).get(access)
+                            kind = "fills" if access == "read" else "writebacks"
+                            stg = ":staging" if (staging and access == "write") else ""
+                            mon.check(g == x, keyfn("buffetTraffic", kind, "count", stg),
+                                      f"buffetTraffic evict-on {evict} capacity {cap}: tensor {t} {access} = {g} bits, the "
+                                      f"window rule gives {x} bits (line {line_sz} bits, bindings listed {listing})")
+                    if cap is None:
+                        mon.check(overflows == 0, f"buffetTraffic:overflow-at-unbounded-capacity{tag}",
+                                  f"buffetTraffic reported {overflows} overflows with room for every access")
+                    ref = first_run.get(("buffet", tuple(evict), cap))
+                    if not full and ref is not None:
+                        mon.count("listing_order_checked")
+                        mon.check(got == ref, f"buffetTraffic:depends-on-binding-listing-order{tag}",
+                                  f"buffetTraffic evict-on {evict} capacity {cap}: {ref} with the bindings listed "
+                                  f"{listings[0]}, {got} with the same bindings listed {listing}")
+
+        # ------------------------------------------------------------ cache
+        if case.get("cache"):
+            bindings = [dict(ctx["bind"][i]) for i in listing]
+            # processing order over all bindings: stamp padded with -1, then rank position / listing order
+            pos_of = sorted(range(nb), key=lambda i: (order.index(case["bindings"][i]["rank"]), place[i]))
+            seq = []
+            for slot, i in enumerate(pos_of):
+                for k, (stamp, is_w, line, wb, _) in enumerate(facts[i]["acc"]):
+                    pad = tuple(stamp) + (-1,) * (len(order) - len(stamp))
+                    seq.append((pad, slot, k, (i, line, is_w, wb)))
+            seq.sort(key=lambda s: s[:3])
+            seq = [s[3] for s in seq]
+            exact = not staging and not shift and not same_rank and not foreign
+            read_only = all(b["writes"] is None for b in case["bindings"])
+            prev = None
+            caps = case["cache"]["caps"]
+            if not full:        # later listings: two of the capacities
+                pick = sorted({lno % len(caps), (lno + 2) % len(caps)})
+                caps = [caps[j] for j in pick]
+            for cap in caps:
                 cap_bits = inf_bits if cap is None else cap * line_sz
-                ok, res = _call(mon, "buffetTraffic",
-                                lambda: Traffic.buffetTraffic(bindings, ctx["formats"], dict(ctx["traces"]), cap_bits,
-                                                              line_sz, loop_ranks=loop_ranks()), tmp, ctx["keep"])
+                if cap is not None and case["cache"].get("frac"):
+                    cap_bits += line_sz // 2            # a fraction of a line holds nothing
+                cap_lines = cap_bits // line_sz
+                ok, res = _call(mon, "cacheTraffic",
+                                lambda: Traffic.cacheTraffic(bindings, ctx["formats"], dict(traces), cap_bits,
+                                                             line_sz, loop_ranks=loop_ranks()), tmp, ctx["keep"])
                 mon.count("model_calls")
-                mon.count("buffet_calls")
+                mon.count("cache_calls")
                 if multi:
                     mon.count("multi_binding_calls")
                 if not ok:
-                    mon.violation(f"buffetTraffic:raised:{type(res).__name__}{ftag}{tag}",
-                                  f"buffetTraffic raised {type(res).__name__}: {res} (evict-on {evict}, capacity {cap})")
+                    # input class of the failing run (first that applies), so that one mechanism is one key
+                    if foreign:
+                        cls = ftag
+                    elif shift:
+                        cls = ":rw-rows-of-different-lines-share-a-stamp"
+                    elif staging and multi:
+                        cls = ":staging-lines-beside-another-binding"
+                    else:
+                        cls = tag
+                    mon.violation(f"cacheTraffic:raised:{type(res).__name__}{cls}",
+                                  f"cacheTraffic raised {type(res).__name__}: {res} (capacity {cap_lines} lines, "
+                                  f"bindings listed {listing})")
+                    prev = None
                     continue
                 got, overflows = res
-                results.append(("buffet", evict, cap, got))
-                _bounds(mon, "buffetTraffic", keyfn, case, facts, got, line_sz)
-                for t in sorted(set(exp) | set(got)):
-                    for access in ("read", "write"):
-                        g, x = got.get(t, {}).get(access), exp.get(t, {}).get(access)
-                        kind = "fills" if access == "read" else "writebacks"
-                        stg = ":staging" if (staging and access == "write") else ""
-                        mon.check(g == x, keyfn("buffetTraffic", kind, "count", stg),
-                                  f"buffetTraffic evict-on {evict} capacity {cap}: tensor {t} {access} = {g} bits, the "
-                                  f"window rule gives {x} bits (line {line_sz} bits)")
+                if full:
+                    results.append(("cache", cap_lines if cap is not None else None, got))
+                    first_run[("cache", cap)] = got
+                _bounds(mon, "cacheTraffic", keyfn, case, facts, got, line_sz)
+                if exact:
+                    fills, wbs = _fnu_model(seq, cap_lines)
+                    per = [(fills.get(i, 0), wbs.get(i, 0)) for i in range(nb)]
+                    exp = _expected_dict(case, per, line_sz)
+                    mon.count("fnu_checked")
+                    for t in sorted(set(exp) | set(got)):
+                        for access in ("read", "write"):
+                            g, x = got.get(t, {}).get(access), exp.get(t, {}).get(access)
+                            kind = "fills" if access == "read" else "writebacks"
+                            mon.check(g == x, keyfn("cacheTraffic", kind, "differs-from-furthest-next-use"),
+                                      f"cacheTraffic capacity {cap_lines} lines: tensor {t} {access} = {g} bits, "
+                                      f"furthest-next-use with bypass gives {x} bits (line {line_sz} bits, bindings "
+                                      f"listed {listing})")
+                if read_only and not shift and len(seq) <= 12 and len({s[:2] for s in seq}) <= 5 and not same_rank:
+                    best = _optimum([s[:2] for s in seq], cap_lines)
+                    total = sum(d.get("read", 0) for d in got.values())
+                    mon.count("optimum_checked")
+                    mon.check(total == best * line_sz, f"cacheTraffic:fills:not-optimal{tag}",
+                              f"cacheTraffic capacity {cap_lines} lines charged {total} bits of fills; the optimum over all "
+                              f"replacement decisions is {best} fills x {line_sz} (bindings listed {listing})")
                 if cap is None:
-                    mon.check(overflows == 0, f"buffetTraffic:overflow-at-unbounded-capacity{tag}",
-                              f"buffetTraffic reported {overflows} overflows with room for every access")
-
-    # ---------------------------------------------------------------- cache
-    if case.get("cache"):
-        bindings = [dict(b) for b in ctx["bind"]]
-        # processing order over all bindings: stamp padded with -1, then rank position / listing order
-        pos_of = sorted(range(len(case["bindings"])), key=lambda i: (order.index(case["bindings"][i]["rank"]), i))
-        seq = []
-        for slot, i in enumerate(pos_of):
-            for k, (stamp, is_w, line, wb, _) in enumerate(facts[i]["acc"]):
-                pad = tuple(stamp) + (-1,) * (len(order) - len(stamp))
-                seq.append((pad, slot, k, (i, line, is_w, wb)))
-        seq.sort(key=lambda s: s[:3])
-        seq = [s[3] for s in seq]
-        exact = not staging and not shift and not same_rank and not foreign
-        read_only = all(b["writes"] is None for b in case["bindings"])
-        prev = None
-        for cap in case["cache"]["caps"]:
-            cap_bits = inf_bits if cap is None else cap * line_sz
-            if cap is not None and case["cache"].get("frac"):
-                cap_bits += line_sz // 2            # a fraction of a line holds nothing
-            cap_lines = cap_bits // line_sz
-            ok, res = _call(mon, "cacheTraffic",
-                            lambda: Traffic.cacheTraffic(bindings, ctx["formats"], dict(ctx["traces"]), cap_bits,
-                                                         line_sz, loop_ranks=loop_ranks()), tmp, ctx["keep"])
-            mon.count("model_calls")
-            mon.count("cache_calls")
-            if multi:
-                mon.count("multi_binding_calls")
-            if not ok:
-                # input class of the failing run (first that applies), so that one mechanism is one key
-                if foreign:
-                    cls = ftag
-                elif shift:
-                    cls = ":rw-rows-of-different-lines-share-a-stamp"
-                elif staging and multi:
-                    cls = ":staging-lines-beside-another-binding"
-                else:
-                    cls = tag
-                mon.violation(f"cacheTraffic:raised:{type(res).__name__}{cls}",
-                              f"cacheTraffic raised {type(res).__name__}: {res} (capacity {cap_lines} lines)")
-                prev = None
-                continue
-            got, overflows = res
-            results.append(("cache", cap_lines if cap is not None else None, got))
-            _bounds(mon, "cacheTraffic", keyfn, case, facts, got, line_sz)
-            if exact:
-                fills, wbs = _fnu_model(seq, cap_lines)
-                per = [(fills.get(i, 0), wbs.get(i, 0)) for i in range(len(case["bindings"]))]
-                exp = _expected_dict(case, per, line_sz)
-                mon.count("fnu_checked")
-                for t in sorted(set(exp) | set(got)):
-                    for access in ("read", "write"):
-                        g, x = got.get(t, {}).get(access), exp.get(t, {}).get(access)
-                        kind = "fills" if access == "read" else "writebacks"
-                        mon.check(g == x, keyfn("cacheTraffic", kind, "differs-from-furthest-next-use"),
-                                  f"cacheTraffic capacity {cap_lines} lines: tensor {t} {access} = {g} bits, "
-                                  f"furthest-next-use with bypass gives {x} bits (line {line_sz} bits)")
-            if read_only and not shift and len(seq) <= 12 and len({s[:2] for s in seq}) <= 5 and not same_rank:
-                best = _optimum([s[:2] for s in seq], cap_lines)
-                total = sum(d.get("read", 0) for d in got.values())
-                mon.count("optimum_checked")
-                mon.check(total == best * line_sz, f"cacheTraffic:fills:not-optimal{tag}",
-                          f"cacheTraffic capacity {cap_lines} lines charged {total} bits of fills; the optimum over all "
-                          f"replacement decisions is {best} fills x {line_sz}")
-            if cap is None:
-                mon.check(overflows == 0, f"cacheTraffic:overflow-at-unbounded-capacity{tag}",
-                          f"cacheTraffic reported {overflows} overflows with room for every line")
-            if prev is not None and not staging and not shift and not foreign:
-                for t in got:
-                    if "read" in got[t] and "read" in prev[1].get(t, {}):
-                        mon.check(got[t]["read"] <= prev[1][t]["read"], f"cacheTraffic:fills:increase-with-capacity{tag}",
-                                  f"cacheTraffic: tensor {t} fills rose from {prev[1][t]['read']} to {got[t]['read']} bits "
-                                  f"when capacity grew from {prev[0]} to {cap_lines} lines")
-            prev = (cap_lines, got)
+                    mon.check(overflows == 0, f"cacheTraffic:overflow-at-unbounded-capacity{tag}",
+                              f"cacheTraffic reported {overflows} overflows with room for every line")
+                if prev is not None and not staging and not shift and not foreign:
+                    for t in got:
+                        if "read" in got[t] and "read" in prev[1].get(t, {}):
+                            mon.check(got[t]["read"] <= prev[1][t]["read"], f"cacheTraffic:fills:increase-with-capacity{tag}",
+                                      f"cacheTraffic: tensor {t} fills rose from {prev[1][t]['read']} to {got[t]['read']} bits "
+                                      f"when capacity grew from {prev[0]} to {cap_lines} lines")
+                prev = (cap_lines, got)
+                # bindings on different loop ranks are processed in an order the listing has no say in
+                ref = first_run.get(("cache", cap))
+                if not full and ref is not None and not same_rank:
+                    mon.count("listing_order_checked")
+                    mon.check(got == ref, f"cacheTraffic:depends-on-binding-listing-order{tag}",
+                              f"cacheTraffic capacity {cap_lines} lines: {ref} with the bindings listed {listings[0]}, "
+                              f"{got} with the same bindings listed {listing}")
 
     # ---------------------------------------------------------------- positions inside a line do not matter
     if case.get("perm") is not None and results:
@@ -1034,20 +1111,27 @@ def _run_kernel(case, mon, tmp):
     tensors = {"A": {"ranks": ["M", "K"], "shape": [m, k]}, "B": {"ranks": ["K", "N"], "shape": [k, n]},
                "Z": {"ranks": ["M", "N"], "shape": [m, n]}}
 
+    widths = case.get("widths") or [bits] * 3
+
     def binding(t, rk, ty, rd, wr=None):
         nn = order.index(rk) + 1
-        return ({"tensor": t, "rank": rk, "type": ty, "bits": bits, "n": nn,
+        return ({"tensor": t, "rank": rk, "type": ty, "bits": None, "n": nn,
                  "reads": parsed[rd][2] if rd else None,
                  "writes": parsed[wr][2] if wr else None},
                 {"read": parsed[rd][0] if rd else None, "write": parsed[wr][0] if wr else None})
 
     def model(bind_files, buffet_evicts, tagx=""):
-        bs = [bf[0] for bf in bind_files]
+        bs = [dict(bf[0], bits=widths[i]) for i, bf in enumerate(bind_files)]
         used = {b["tensor"] for b in bs}
+        listings = [list(range(len(bs)))]
+        if len(bs) > 1 and case.get("relist"):
+            # one more order of listing the same bindings
+            perms = [list(p) for p in itertools.permutations(range(len(bs)))][1:]
+            listings.append(perms[case["relist"] % len(perms)])
         sub = {"kind": "model", "order": order[:max(b["n"] for b in bs)],
                "tensors": {t: d for t, d in tensors.items() if t in used}, "bindings": bs, "line_sz": line_sz,
                "buffet": {"evict": buffet_evicts, "caps": [1, None]}, "cache": {"caps": caps}, "perm": None,
-               "rename": None}
+               "rename": None, "listings": listings}
         _run_model_case(sub, mon, tmp, files=[bf[1] for bf in bind_files], tagx=tagx)
 
     # Z's leaf payloads: reads + writes with insertion shifts and staging positions
